@@ -497,7 +497,7 @@ impl S3 for FileSystem {
         }
 
         let object_path = self.get_object_path(&bucket, &key)?;
-        let mut file_writer = self.prepare_file_write(&object_path).await?;
+        let mut file_writer = self.prepare_file_write(&object_path)?;
 
         let mut md5_hash = Md5::new();
         let stream = body.inspect_ok(|bytes| {
@@ -607,7 +607,7 @@ impl S3 for FileSystem {
         let mut md5_hash = Md5::new();
         let stream = body.inspect_ok(|bytes| md5_hash.update(bytes.as_ref()));
 
-        let mut file_writer = self.prepare_file_write(&file_path).await?;
+        let mut file_writer = self.prepare_file_write(&file_path)?;
         let size = copy_bytes(stream, file_writer.writer()).await?;
         file_writer.done().await?;
 
@@ -671,7 +671,7 @@ impl S3 for FileSystem {
         let mut md5_hash = Md5::new();
         let stream = body.inspect_ok(|bytes| md5_hash.update(bytes.as_ref()));
 
-        let mut file_writer = self.prepare_file_write(&dst_path).await?;
+        let mut file_writer = self.prepare_file_write(&dst_path)?;
         let size = copy_bytes(stream, file_writer.writer()).await?;
         file_writer.done().await?;
 
@@ -767,7 +767,7 @@ impl S3 for FileSystem {
         }
 
         let object_path = self.get_object_path(&bucket, &key)?;
-        let mut file_writer = self.prepare_file_write(&object_path).await?;
+        let mut file_writer = self.prepare_file_write(&object_path)?;
 
         let mut cnt: i32 = 0;
         let total_parts_cnt = multipart_upload
